@@ -54,15 +54,16 @@ Next ==
 
 Expected == SelectSeq([k \in 1..Len(c.items) |-> IF c.good[k] THEN c.items[k] ELSE <<>>], LAMBDA f : f # <<>>)
 
-\* the reference processor recovers exactly the modulated frames for noise up to -10 dB of the pulses AS LONG AS the noise
-\* stays below 0.2 absolute: the preamble template is absolute (a '1' position only has to reach 0.2), so stronger noise can
-\* pass as a preamble next to a real pulse.  TLC found that design-level counterexample with two short frames at amplitude
-\* 0.7 and constant noise 0.21 (the second frame is swallowed); it is the open finding C19-false-preamble-in-strong-noise.
+\* the reference processor recovers exactly the modulated frames for noise up to -10 dB of the pulses.  History: with the purely
+\* absolute preamble template (a '1' position only has to reach 0.2) TLC found a design-level counterexample here - two short
+\* frames at amplitude 0.7 and constant noise 0.21: the last pulse of the first frame plus noise passes as a preamble and the
+\* second frame is swallowed (finding C19-false-preamble-in-strong-noise).  Demod.IsPreamble now also requires pulses of
+\* comparable height, and so does the library since 395dcb0.
 AbsNoise == (c.amp * c.lvl) \div 1000
 \* (one evaluation of the processor per state: both clauses share it)
 Reference == c.ph = "case" =>
    LET o == DemodAll(Build(c.items, c.off, c.gapMul, c.amp, c.lvl, c.pat), TRUE) IN
-   /\ (AbsNoise < 200 => o = Expected)
+   /\ o = Expected
    \* whatever the noise: nothing that fails the admission rules is ever returned (no DF17 with a non-zero syndrome)
    /\ \A k \in 1..Len(o) : CheckMsg(BitsOf(o[k]))
 \* the quiet-pair rule the library uses is right while the noise stays below 0.2 x amplitude
